@@ -18,6 +18,7 @@ func runC13(c *Ctx) {
 		"(R2) in CopyReader.Read each message type maps to its outcome: CopyData -> nil, CopyDone -> exactly io.EOF, Flush/Sync -> no return (the loop continues), CopyFail and every other type -> a non-nil, non-EOF error; " +
 		"(R3) the COPY readers emit nothing themselves, so an aborted COPY is reported exactly once by the cycle owner (C05.R1 / C06.R1 decide that single ErrorResponse); (R4) CopyData / CopyDone / CopyFail arriving outside COPY mode produce no reply, invoke nothing and keep the connection. " +
 		"Not decided: byte-exactness of payloads beyond the exact message window (C03.R2) and what a handler does with the error."
+	R.Explanation += " (R2) also: no path from the CopyData arm leads back to the next read (every payload is delivered). (R5) the failing Execute path ends the cycle itself (ErrorResponse and ReadyForQuery) or the COPY reader does not consume Sync: deferring ReadyForQuery to a later Sync while CopyReader.Read swallows Sync loses it."
 	R.Trusted = []string{"go/types + go/ssa"}
 
 	// ---------- R1: format provenance
@@ -121,6 +122,22 @@ func runC13(c *Ctx) {
 				}
 				R.Check(seenArm[k], "C13.R2", "(*CopyReader).Read:arm-exists:"+name, c.atFn(read), "Read has an outcome for "+name+" messages", "a return dominated by that arm's edge exists", "no return is attributed to the "+name+" arm: the dispatch changed shape (undecided)")
 			}
+			// every CopyData message is delivered: the CopyData arm never loops back to read the next message
+			var readCall ssa.Instruction
+			for _, ci := range core.Calls(read) {
+				if isReaderMethod(ci, "ReadTypedMsg") {
+					readCall = ci
+				}
+			}
+			for _, e := range constEqEdges(typed, int64('d'), true) {
+				back := false
+				for b := range reachableAvoiding(e.to(), func(*ssa.BasicBlock) bool { return false }) {
+					if readCall != nil && b == readCall.Block() {
+						back = true
+					}
+				}
+				R.Check(!back, "C13.R2", "(*CopyReader).Read:CopyData-always-delivered", c.at(e.to().Instrs[0]), "every CopyData payload is handed to the handler (none is skipped, whatever its content)", "no path from the CopyData arm leads back to the next ReadTypedMsg", "a path from the CopyData arm continues with the next message: some CopyData payloads are silently dropped")
+			}
 			// Flush / Sync arms exist and lead back into the loop
 			for _, k := range []byte{'H', 'S'} {
 				es := constEqEdges(typed, int64(k), true)
@@ -148,6 +165,83 @@ func runC13(c *Ctx) {
 		if ok {
 			R.OK("C13.R3", fkey(fn)+":emits-nothing", c.atFn(fn), "the COPY readers never write to the client", sprintf("no message emission reachable (%d states explored)", ts.States))
 		}
+	}
+
+	// ---------- R5: an aborted COPY gets its ReadyForQuery. The COPY reader consumes Sync messages (R2), so the
+	// failing Execute path must end the cycle itself; deferring ReadyForQuery to "the next Sync" loses it when the
+	// client pipelined that Sync in front of its CopyData.
+	var he *ssa.Function
+	for _, fn := range c.P.ScopeFuncs() {
+		if !c.P.InPkg(fn, "wire") {
+			continue
+		}
+		for _, ci := range core.Calls(fn) {
+			cc := ci.Common()
+			if cc.IsInvoke() && cc.Method.Name() == "Execute" && core.IsNamed(cc.Value.Type(), pkWire, "PortalCache") {
+				he = fn
+			}
+		}
+	}
+	if he == nil {
+		R.Fail("C13.R5", "anchor:portal-execution", "-", "a function of package wire runs the portal (PortalCache.Execute)", "no invoke of PortalCache.Execute found")
+	}
+	if he != nil && read != nil {
+		swallows := false
+		var typed ssa.Value
+		var readCall ssa.Instruction
+		for _, ci := range core.Calls(read) {
+			if call, ok := ci.(*ssa.Call); ok && isReaderMethod(call, "ReadTypedMsg") {
+				typed, readCall = resultOf(call, 0), call
+			}
+		}
+		if typed != nil {
+			for _, e := range constEqEdges(typed, int64('S'), true) {
+				for b := range reachableAvoiding(e.to(), func(*ssa.BasicBlock) bool { return false }) {
+					if b == readCall.Block() {
+						swallows = true
+					}
+				}
+			}
+		}
+		n := 0
+		for _, ci := range core.Calls(he) {
+			call, ok := ci.(*ssa.Call)
+			if !ok || !call.Call.IsInvoke() || call.Call.Method.Name() != "Execute" || !core.IsNamed(call.Call.Value.Type(), pkWire, "PortalCache") {
+				continue
+			}
+			n++
+			sawE, sawZ := false, false
+			for _, fe := range failEdges(errResultOf(call)) {
+				for _, b := range he.Blocks {
+					if !fe.dominates(b) {
+						continue
+					}
+					for _, in := range b.Instrs {
+						inner, isCall := in.(ssa.CallInstruction)
+						if !isCall {
+							continue
+						}
+						callee := core.StaticCallee(inner)
+						if callee == nil || !c.P.InScope(callee) {
+							continue
+						}
+						er := &emitSetRule{msgs: map[string]ssa.Instruction{}}
+						tc := newTraceClient(c, er)
+						ts := core.NewTS(c.P, tc)
+						ts.Relevant = c.reachesEvents()
+						ts.Run(callee, joinState("", ""), core.TSEnv{})
+						if _, ok := er.msgs["E"]; ok {
+							sawE = true
+						}
+						if _, ok := er.msgs["Z"]; ok {
+							sawZ = true
+						}
+					}
+				}
+			}
+			R.Check(!(swallows && sawE && !sawZ), "C13.R5", "handleExecute:aborted-copy-gets-ReadyForQuery", c.at(call), "a failed or aborted COPY ends with one ErrorResponse and one ReadyForQuery for the cycle", sprintf("COPY reader consumes Sync: %v; the failing Execute path emits ErrorResponse: %v, ReadyForQuery: %v", swallows, sawE, sawZ), "the failing Execute path reports the error but leaves ReadyForQuery to a later Sync, while CopyReader.Read consumes Sync messages during the COPY: a client that pipelined its Sync before the CopyData never receives ReadyForQuery for the cycle")
+		}
+		R.Floor("C13.R5", "PortalCache.Execute calls in "+fkey(he), n, 1)
 	}
 
 	// ---------- R4: stray COPY messages at top level
